@@ -287,3 +287,14 @@ Proof.
   apply get_ingress_list_spec in Hin as [Hin Hv]. exists i. split; [exact Hin|]. split; [|exact Hx].
   apply is_valid_iff_selected; auto.
 Qed.
+
+(* unselected_contributes_nothing is not vacuous: erasing the foreign ingress of a
+   cluster leaves the full sync unchanged, and the selected one contributes *)
+Example unselected_example :
+  let c := {| c_class := "haproxy"; c_controller := "ctl"; c_watch := false; c_prec := false |} in
+  let mk n a := {| i_name := n; i_ann := a; i_cls := None; i_oann := 0; i_spec := 0; i_gen := 1; i_rv := 1 |} in
+  let ings := [mk "a/ours" (Some "haproxy"); mk "a/theirs" (Some "nginx"); mk "a/none" None] in
+  let contrib (_ : unit) i := [i_name i] in
+  sync_full contrib tt c [] ings = ["a/ours"] /\
+  sync_full contrib tt c [] (filter (fun i => String.eqb (i_name i) "a/ours") ings) = ["a/ours"].
+Proof. vm_compute. split; reflexivity. Qed.
